@@ -41,7 +41,7 @@ Definition ex_scheme : scheme :=
      sc_functions := []; sc_lists := []; sc_nil_ne := true |}.
 Definition ex_filter : lexpr :=
   ECombining LOr (LCons (ECombining LAnd (LCons (EComparison (IField 0 []) (COrd OLt (RInt 5)))
-                                           (LCons (ENot (EComparison (IField 1 []) (COrd ONe (RBytes [97]%N)))) LNil)))
+                                           (LCons (ENot (EComparison (IField 1 []) (COrd ONe (RBytes [97]%N FQuoted)))) LNil)))
                  (LCons (EParen (EComparison (IField 2 []) (COrd ONe (RIp (V6 1))))) LNil)).
 Definition ex_ctx : ctx := {| cx_vals := [Some (VInt (-9223372036854775808)); None; Some (VIp (V4 1))]; cx_lists := [] |}.
 Example C01_premises_satisfiable :
